@@ -362,7 +362,7 @@ def invpair_residue(prog):
             ("object invariant len <= N of the hash being normalised (callers pass fields of a hash object)", None),
         ("FuzzyHashDualData::<S1, S2, C1, C2>::new_from_internals_near_raw_internal", r"len\(block_hash\w*\) Le S[12]"):
             ("caller contract: the safe constructor asserts it first (SA-VALIDATE); unchecked twin is unsafe", None),
-        ("Generator::finalize_raw_internal", r"^\(sz Lt FULL_SIZE\)$"):
+        ("Generator::finalize_raw_internal", r"^\(\w+ Lt FULL_SIZE\)$"):
             ("paired with the bounds check `sz < S1|S2` of the store that follows: the only admitted capacities are S1 = FULL_SIZE and S2 in {HALF_SIZE, FULL_SIZE} (sealed ConstrainedBlockHashSizes), and this site is on the long-form / block-hash-1 path", side_sealed_sizes),
         ("FuzzyHashData::<S1, S2, NORM>::new_from_internals_near_raw_internal", r"len\(block_hash\w*\) Le S2"):
             ("paired with the range check on blockhash2 (second slice copy)", None),
